@@ -74,6 +74,12 @@ PAIRS = [
 PRECONDITION_WORDS = ('is_square', 'is_symmetric(', 'is_lower_triangular', 'is_upper_triangular', 'is_positive_definite(', '== len(', 'len(lu)', '(N == N)')
 
 
+def idiom_signature(lines):
+    """coarse structure of a skeleton: how many loops / array stores / swaps.  Siblings written in different loop idioms (for vs
+    while, fused vs split loops, helper extracted) are not comparable statement by statement"""
+    return (sum(l.startswith('loop ') for l in lines), sum(l.startswith('store A') for l in lines), sum(l.startswith('swap ') for l in lines))
+
+
 def algorithmic(lines):
     import re as _re
     out = []
@@ -158,6 +164,9 @@ def run(prog, rep, tier, repo):
             rep.sample('%s: %s' % (name, '; '.join(la[:4])))
         elif not la:
             rep.undecided('sibling', key, 'empty skeleton')
+        elif idiom_signature(la) != idiom_signature(lb):
+            rep.undecided('sibling', key, 'the two implementations use different loop idioms (%s vs %s loops/stores/swaps): not comparable statement by statement' % (
+                idiom_signature(la), idiom_signature(lb)), site_of(fb.body), proof=False)
         else:
             rep.viol('sibling', key, 'slice-level and Matrix-level %s differ. only in %s: %s | only in %s: %s' % (
                 name, short(ka), '; '.join(oa)[:400] or '-', 'Matrix::' + short(kb), '; '.join(ob)[:400] or '-'), site_of(fb.body))
@@ -186,6 +195,9 @@ def run(prog, rep, tier, repo):
         ob = [x for x in ob if 'Option' not in x]
         if not oa and not ob:
             rep.ok('sibling', key, 'same statements up to the listed difference: partial-row dot (slice) vs zero-padded full-row dot (Matrix)')
+        elif idiom_signature(la) != idiom_signature(lb):
+            rep.undecided('sibling', key, 'the two Cholesky implementations use different loop idioms (%s vs %s loops/stores/swaps)' % (
+                idiom_signature(la), idiom_signature(lb)), site_of(fb.body), proof=False)
         else:
             rep.viol('sibling', key, 'Cholesky siblings differ: only slice: %s | only Matrix: %s' % ('; '.join(oa)[:300], '; '.join(ob)[:300]), site_of(fb.body))
 
@@ -207,8 +219,34 @@ def run(prog, rep, tier, repo):
         lines = sk.lines()
         loops = [l for l in lines if l.startswith('loop ')]
         stores = [l for l in lines if l.startswith('store A2(L,')]
-        ok = 'loop i0 in 0..N' in loops and 'loop i1 in 0..i0+1' in loops and stores and all(l.startswith('store A2(L,i0,i1)') for l in stores)
-        (rep.ok if ok else rep.viol)('triangular', key, 'L[i][j] is written only for j in 0..=i' if ok else 'Cholesky does not confine its writes to the lower triangle: %s / %s' % (loops, [s[:40] for s in stores]), site_of(fch.body))
+        import re as _re
+        lranges = {}
+        for l in loops:
+            m_ = _re.match(r'loop (?:rev )?(\S+) in (.+)\.\.(.+)$', l)
+            if m_:
+                lranges[m_.group(1)] = (m_.group(2), m_.group(3))
+        verdicts = []
+        for st_ in stores:
+            m_ = _re.match(r'store A2\(L,([^,]+),([^)]+)\)', st_)
+            if not m_:
+                verdicts.append(None)
+                continue
+            r_, c_ = m_.group(1), m_.group(2)
+            if c_ == r_:
+                verdicts.append(True)
+            elif c_ in lranges:
+                lo_, hi_ = lranges[c_]
+                verdicts.append(True if (lo_ == '0' and hi_ in (r_, r_ + '+1')) else False)
+            elif any(l in ('cond (%s < %s)' % (c_, r_), 'cond (%s <= %s)' % (c_, r_)) for l in lines):
+                verdicts.append(True)
+            else:
+                verdicts.append(None)
+        if stores and all(v is True for v in verdicts):
+            rep.ok('triangular', key, 'L[i][j] is written only for j in 0..=i')
+        elif any(v is False for v in verdicts):
+            rep.viol('triangular', key, 'Cholesky does not confine its writes to the lower triangle: %s / %s' % (loops, [s_[:40] for s_ in stores]), site_of(fch.body))
+        else:
+            rep.undecided('triangular', key, 'column bound of the writes not derived (%s)' % [s_[:40] for s_ in stores], site_of(fch.body), proof=False)
     for name, rev, want_row, want_x in (('forward_substitution', False, 'ROW(T,i0,0..+i0)', 'S(X,i0)'),
                                         ('backward_substitution', True, 'ROW(T,i0,i0+1..+N+-1*i0+-1)', 'S(X,i0+1)')):
         k = D + 'substitution::' + name
